@@ -13,6 +13,8 @@
     select_eq_xp_chain_attribute select_eq_xp_chain_attribute_default
     pattern_matches_eq_xp
     parser_accepts_subset_partial parser_accepts_steps_partial
+    parse_print_tokens tokenize_print parse_print parser_accepts_subset select_text_eq_xp
+    select_text_eq_xp_nonpositional numOk_iff parse_print_abbrev select_text_abbrev_eq_xp
 -/
 import Genshi.Model.Path
 import Genshi.Model.PathParse
@@ -25,6 +27,10 @@ import Genshi.Lemmas.PathSelect
 import Genshi.Lemmas.PathChain
 import Genshi.Lemmas.PathParseChain
 import Genshi.Lemmas.PathParseSteps
+import Genshi.Lemmas.PathPrintPath
+import Genshi.Lemmas.PathPrintTok
+import Genshi.Lemmas.PathPrintNum
+import Genshi.Lemmas.PathPrintAbbr
 import Genshi.Lemmas.PathChildPath
 import Genshi.Lemmas.PathUnion
 import Genshi.Lemmas.PathNonPos
@@ -239,6 +245,66 @@ example : parse "a[@n<=2 and not(@m)]/b//text()[2]|.//@x:y".toList = .ok
       ⟨.child, .localName false ['b'], []⟩, ⟨.descendantOrSelf, .node, []⟩,
       ⟨.child, .text, [.num (.dec false 2 0)]⟩],
      [⟨.self, .node, []⟩, ⟨.descendantOrSelf, .node, []⟩, ⟨.attribute, .qname true ['x'] ['y'], []⟩]] := by
+  decide +kernel
+
+
+/-! ### The printer: `parse ∘ print = id` -/
+
+/-- **parser_accepts_subset, token level, for the whole AST.**  `Print.pathsToks` spells a union
+    of location paths — steps as `axis::test[pred]…` joined by `/`, operands joined by `|`,
+    node tests `*`, `p:*`, `name`, `p:name`, `comment()`, `node()`, `text()`,
+    `processing-instruction()`, `processing-instruction("t")`, predicates with `or`, `and`,
+    `=`, `!=`, `<`, `<=`, `>`, `>=` (parentheses exactly where precedence / left-associativity
+    need them), attribute and element name tests, string literals, numbers, `$variables` and
+    calls of every function of `_function_map` including n-ary `concat` — and genshi's
+    recursive-descent parser (`at_end` quirk, fuel and all) reads exactly that AST back, for
+    EVERY AST in the printer's domain `Print.pathsOk` (a decidable syntactic condition: names
+    are name tokens, a literal does not contain both quote characters, the attribute flag of a
+    name test agrees with its axis, `concat` chains are well-formed with ≤ 99 arguments, a
+    number literal is a non-negative decimal — `Print.numOk`, which by `numOk_iff` holds for EVERY
+    `m / 10^e`: its numeral reads back as that very number; no `matches` with three
+    arguments, no node-type test or `.` inside a predicate: the real parser has no spelling for
+    those either).  `select_eq_xp_*` therefore speak about what `Path(text)` does for the text
+    `Print.printPaths p` as soon as `tokenize (printPaths p) = pathsToks p` (`tokenize_print`, `parse_print`, `select_text_eq_xp` below). -/
+theorem parse_print_tokens (ps : List LocPath) (h : Print.pathsOk ps = true) :
+    parseTokens (Print.pathsToks ps) = .ok ps :=
+  Print.parseTokens_print ps h
+
+/-- `child::a[(@x or @y) and @z = 1.50][not(@a < (1 < 2))]/descendant::text()[2]|attribute::p:*` -/
+def printDemo : List LocPath :=
+  [[⟨.child, .localName false ['a'],
+      [.and_ (.or_ (.test (.localName true ['x'])) (.test (.localName true ['y'])))
+             (.cmp .eq (.test (.localName true ['z'])) (.num (.dec false 150 2))),
+       .fn1 .not (.cmp .lt (.test (.localName true ['a'])) (.cmp .lt (.num (.dec false 1 0)) (.num (.dec false 2 0))))]⟩,
+    ⟨.descendant, .text, [.num (.dec false 2 0)]⟩],
+   [⟨.attribute, .qprincipal true ['p'], []⟩]]
+
+example : Print.pathsOk printDemo = true := by decide +kernel
+example : Print.printPaths printDemo =
+    "child :: a [ ( @ x or @ y ) and @ z = 1.50 ] [ not ( @ a < ( 1 < 2 ) ) ] / descendant :: text () [ 2 ] | attribute :: p : *".toList := by
+  decide +kernel
+example : parseTokens (Print.pathsToks printDemo) = .ok printDemo := parse_print_tokens _ (by decide +kernel)
+
+/-- the side condition on number literals is no restriction: every non-negative decimal `m / 10^e`
+    (every number a literal can denote — a numeral has no sign, `-` is a name character) has a
+    numeral `digits[.digits]` that the tokenizer delivers as one token and `_primary_expr` reads
+    back as exactly `dec false m e`; NaN and negative numbers have no literal. -/
+theorem numOk_iff (x : XNum) : Print.numOk x = true ↔ ∃ m e, x = .dec false m e := by
+  constructor
+  · intro h
+    cases x with
+    | nan => simp [Print.numOk] at h
+    | dec neg m e =>
+      cases neg with
+      | true => simp [Print.numOk] at h
+      | false => exact ⟨m, e, rfl⟩
+  · rintro ⟨m, e, rfl⟩
+    exact Print.numOk_all m e
+
+/-- numerals read back as the numbers they print (the side condition `Print.numOk` on a few numbers) -/
+theorem numOk_examples :
+    Print.numOk (.dec false 0 0) = true ∧ Print.numOk (.dec false 2 0) = true ∧ Print.numOk (.dec false 150 2) = true ∧
+    Print.numOk (.dec false 5 3) = true ∧ Print.numOk (.dec false 12345 1) = true ∧ Print.numOk (.dec true 1 0) = false := by
   decide +kernel
 
 /-! ## Predicate evaluation -/
@@ -1135,5 +1201,73 @@ theorem ne_absent_not_xpath :
     select pathNeAbsent [] [] docAbsent.flatten
       = [.ev (.start ⟨[], ['a']⟩ []), .ev (.end_ ⟨[], ['a']⟩)] ∧
     Ref.xpSelect pathNeAbsent [] [] docAbsent = [] := by decide +kernel
+
+/-- **The tokenizer on printed text.**  The alternation `"…"|'…'|(\d+)?\.\d+|_TOKENS|[^heads\s]+|\s+` of
+    `PathParser._tokenize` (with the regenerated `_TOKENS` table) cuts the text `Print.printPaths ps` —
+    the printer's tokens separated by one blank — into exactly the printer's tokens. -/
+theorem tokenize_print (ps : List LocPath) (h : Print.pathsOk ps = true) :
+    tokenize (Print.printPaths ps) = Print.pathsToks ps :=
+  Print.tokenize_print ps h
+
+/-- **`parse (print p) = p`: on SOURCE TEXT.**  For every union of location paths in the printer's
+    domain (see `parse_print_tokens`), `PathParser(Print.printPaths ps).parse()` — tokenizer and
+    recursive-descent parser — returns exactly `ps`. -/
+theorem parse_print (ps : List LocPath) (h : Print.pathsOk ps = true) :
+    parse (Print.printPaths ps) = .ok ps :=
+  Print.parse_print ps h
+
+/-- **parser_accepts_subset.**  Every path expression of the subset has a source text that genshi's
+    parser accepts with exactly that meaning: no printable AST is rejected or read differently. -/
+theorem parser_accepts_subset (ps : List LocPath) (h : Print.pathsOk ps = true) :
+    ∃ text, parse text = .ok ps :=
+  ⟨Print.printPaths ps, parse_print ps h⟩
+
+example : parse (Print.printPaths printDemo) = .ok printDemo := parse_print _ (by decide +kernel)
+
+/-- `Path(text).select(stream, namespaces, variables)` in the model: parse, then select -/
+def selectText (text : Str) (ns : NsMap) (vs : Vars) (es : List Event) : Except PErr (List Item) :=
+  match parse text with
+  | .ok ps => .ok (select ps ns vs es)
+  | .error k => .error k
+
+/-- **`select_eq_xp` speaks about source text.**  Whenever one of the `select_eq_xp_*` theorems gives
+    `select ps … = Ref.xpSelect ps …` for an AST in the printer's domain, then selecting with the
+    *text* `Print.printPaths ps` returns what XPath 1.0 designates for `ps`. -/
+theorem select_text_eq_xp (ps : List LocPath) (hok : Print.pathsOk ps = true) (ns : NsMap) (vs : Vars) (root : Node)
+    (h : select ps ns vs root.flatten = Ref.xpSelect ps ns (toXVars vs) root) :
+    selectText (Print.printPaths ps) ns vs root.flatten = .ok (Ref.xpSelect ps ns (toXVars vs) root) := by
+  simp only [selectText, parse_print ps hok, h]
+
+/-- instance: every path without position tests over child / descendant / descendant-or-self / self
+    steps that `Path.__init__` hands to GenericStrategy, written as text -/
+theorem select_text_eq_xp_nonpositional (p : LocPath) (hok : Print.pathsOk [p] = true) (ns : NsMap) (vs : Vars)
+    (hp : StepsOk ns vs p) (h2 : 2 ≤ p.length) (hs : simpleSupports p = false)
+    (tag : QName) (attrs : AttrList) (kids : List Node)
+    (hcl : (Node.elem tag attrs kids).clean = true)
+    (hnodes : AllNodes (NodeFor p ns vs) (.elem tag attrs kids)) :
+    selectText (Print.printPaths [p]) ns vs (Node.elem tag attrs kids).flatten
+      = .ok (Ref.xpSelect [p] ns (toXVars vs) (.elem tag attrs kids)) :=
+  select_text_eq_xp [p] hok ns vs _ (select_eq_xp_nonpositional_default p ns vs hp h2 hs tag attrs kids hcl hnodes)
+
+/-- **The abbreviated spelling.**  `Print.printPathsA` writes the steps the way people do — `a` for
+    `child::a`, `@x` for `attribute::x` (`text()`, `p:*`, … likewise), the other axes as `axis::` — and
+    the same holds on the same domain: tokenizer and parser read the printed text back as exactly
+    the AST.  (`.` and `//` remain the parser's own expansions `self::node()` and
+    `descendant-or-self::node()`, which this printer spells out; predicate-free paths with `.` and
+    `//` written as such are `parser_accepts_steps_partial`.) -/
+theorem parse_print_abbrev (ps : List LocPath) (h : Print.pathsOk ps = true) :
+    parse (Print.printPathsA ps) = .ok ps :=
+  Print.parse_printA ps h
+
+example : Print.printPathsA printDemo =
+    "a [ ( @ x or @ y ) and @ z = 1.50 ] [ not ( @ a < ( 1 < 2 ) ) ] / descendant :: text () [ 2 ] | @ p : *".toList := by
+  decide +kernel
+example : parse (Print.printPathsA printDemo) = .ok printDemo := parse_print_abbrev _ (by decide +kernel)
+
+/-- `select_eq_xp` for the abbreviated text -/
+theorem select_text_abbrev_eq_xp (ps : List LocPath) (hok : Print.pathsOk ps = true) (ns : NsMap) (vs : Vars)
+    (root : Node) (h : select ps ns vs root.flatten = Ref.xpSelect ps ns (toXVars vs) root) :
+    selectText (Print.printPathsA ps) ns vs root.flatten = .ok (Ref.xpSelect ps ns (toXVars vs) root) := by
+  simp only [selectText, parse_print_abbrev ps hok, h]
 
 end Genshi.Props.C05
